@@ -5,7 +5,9 @@ C01 Spec: a decidable predicate over the *trace a harness can record from outsid
     c <tag> <time> <target> <kind> <daemon> <clock>   a plain event was created (and scheduled) at <clock>
     y <tag> <pid> <time> <daemon> <clock> <ent>       a process of <ent> yielded a delay: continuation due at <time>
     x <tag>                                           cancel() was called on that event
-    C <ent> / U <ent>                                 entity crashed / restored
+    C <ent> / U <ent>                                 entity crashed / restored (`_crashed` set / cleared); an
+                                                      event is exempt from "must be delivered" only if its target
+                                                      is down at some moment of the stretch in which it falls due
     S|K <clock> <ent> <kind> <tag> <evtime>           plain event delivered (handler entered) at <clock>
     R <clock> <pid> <val> <tag>                       process resumed (tag 0: resumed by a future)
     end <clock> <endT|inf>
@@ -36,13 +38,15 @@ structure Trace where
   created : List Created := []
   cancels : List (Nat × Nat) := []       -- (tag, pos)
   crashes : List (Nat × Nat) := []       -- (ent, pos) of `C` lines
+  flags : List (Nat × Bool × Nat) := []  -- (ent, down?, pos) of `C` / `U` lines, in trace order
+  len : Nat := 0                         -- number of trace lines
   delivs : List Deliv := []
   endClock : Nat := 0
   endT : Option Nat := none
 
 def parse (body : List String) : Trace :=
   let rec go (pos : Nat) (t : Trace) : List String → Trace
-    | [] => { t with created := t.created.reverse, delivs := t.delivs.reverse }
+    | [] => { t with created := t.created.reverse, delivs := t.delivs.reverse, flags := t.flags.reverse, len := pos }
     | l :: rest =>
       let t' :=
         match toks l with
@@ -51,7 +55,8 @@ def parse (body : List String) : Trace :=
         | ["y", tag, _, time, dm, clk, ent] =>
           { t with created := ⟨natD tag, natD time, natD ent, natD dm != 0, natD clk, pos⟩ :: t.created }
         | ["x", tag] => { t with cancels := (natD tag, pos) :: t.cancels }
-        | ["C", e] => { t with crashes := (natD e, pos) :: t.crashes }
+        | ["C", e] => { t with crashes := (natD e, pos) :: t.crashes, flags := (natD e, true, pos) :: t.flags }
+        | ["U", e] => { t with flags := (natD e, false, pos) :: t.flags }
         | [k, clk, _, _, tag, evt] =>
           if k == "S" || k == "K" then
             { t with delivs := ⟨natD tag, natD clk, some (natD evt), pos⟩ :: t.delivs } else t
@@ -69,6 +74,13 @@ def pairwiseOk {α} (ok : α → α → Bool) : List α → Bool
 def adjOk {α} (ok : α → α → Bool) : List α → Bool
   | a :: b :: r => ok a b && adjOk ok (b :: r)
   | _ => true
+
+/-- is entity `ent` down (`_crashed` set) at some moment of the stretch of the trace between positions
+    `lo` and `hi`?  Down at `lo` (the last `C`/`U` line before `lo` is a `C`), or crashed inside it. -/
+def downDuring (flags : List (Nat × Bool × Nat)) (ent lo hi : Nat) : Bool :=
+  let mine := flags.filter (·.1 == ent)
+  let atLo := ((mine.filter (·.2.2 < lo)).getLast?.map (·.2.1)).getD false
+  atLo || mine.any (fun f => f.2.1 && lo ≤ f.2.2 && f.2.2 < hi)
 
 def judge (t : Trace) : Option String :=
   let ds := t.delivs
@@ -95,9 +107,18 @@ def judge (t : Trace) : Option String :=
     some "engine/tie-order-not-creation-order"
   else
     let delivered (tag : Nat) := tagged.any (·.tag == tag)
-    let crashedSome (tgt : Nat) := t.crashes.any (·.1 == tgt)
+    -- the stretch of the trace in which the event falls due: after the last delivery that precedes it
+    -- in (time, creation) order — and after its own creation — and before the first that follows it.
+    -- An event whose target is up during that whole stretch (never crashed, or restored before) is
+    -- live when it falls due, whatever the target's state was when the event was scheduled.
+    let mayBeDown (c : Created) : Bool :=
+      let before := tagged.filter fun d => d.clock < c.time || (d.clock == c.time && d.tag < c.tag)
+      let after := tagged.find? fun d => c.time < d.clock || (d.clock == c.time && c.tag < d.tag)
+      let lo := max ((before.getLast?.map (·.pos)).getD 0) c.pos
+      let hi := (after.map (·.pos)).getD t.len
+      downDuring t.flags c.target lo hi
     let lost := t.created.find? fun c =>
-      !delivered c.tag && live c 1000000000 && !crashedSome c.target &&
+      !delivered c.tag && live c 1000000000 && !mayBeDown c &&
         (match t.endT with
          | some e => c.time ≤ e
          | none => !c.daemon || c.time < t.endClock)
@@ -113,7 +134,7 @@ def judge (t : Trace) : Option String :=
         -- are left (`…/ran-with-no-primary-pending`, the code's lazy-deletion behaviour).
         let undelivered (c : Created) (d : Deliv) := c.pos < d.pos &&
               !(tagged.any fun d' => d'.tag == c.tag && d'.pos < d.pos)
-        let notYet (c : Created) (d : Deliv) := undelivered c d && !crashedSome c.target
+        let notYet (c : Created) (d : Deliv) := undelivered c d && !mayBeDown c
         let laterFutureResume (d : Deliv) := ds.any fun d' => d'.tag == 0 && d'.pos ≥ d.pos && d'.clock == d.clock
         let badHeap := ds.find? fun d =>
           let inHeap := t.created.any fun c =>
